@@ -73,7 +73,7 @@ def _shrink(v):
         # one per demand of the interoperability line that is not met
         a, b = (v.get('impl') or '').split('; '), exp.split('; ')
         which = next((i for i in range(min(len(a), len(b))) if a[i] != b[i]), -1)
-        return ('interop', which, 'x'), v
+        return ('interop', which, 'large' if (c.get('klass') or '').startswith('large') else 'x'), v
     si, se = v['impl'].split('|')[:-1], exp.split('|')[:-1]
     k = next((i for i in range(min(len(si), len(se))) if si[i] != se[i]), None)
     if k is None:
